@@ -207,43 +207,28 @@ Proof.
   cbn [concat] in S. unfold str, slstate, ldstate in *. rewrite S. rewrite ld_flush_fin by exact I. reflexivity.
 Qed.
 
-(* ====================== C. UTF-8 ====================== *)
+(* ====================== C. UTF-8 (errors="replace": total) ====================== *)
 Lemma u_run_app : forall a b p,
-  u_run p (a ++ b) =
-  match u_run p a with
-  | None => None
-  | Some (p1, s1) => match u_run p1 b with
-                     | None => None
-                     | Some (p2, s2) => Some (p2, s1 ++ s2)
-                     end
-  end.
+  u_run p (a ++ b) = let '(p1, s1) := u_run p a in let '(p2, s2) := u_run p1 b in (p2, s1 ++ s2).
 Proof.
   induction a as [|x a IH]; intros b p; cbn [u_run app].
-  - destruct (u_run p b) as [[p2 s2]|]; reflexivity.
-  - destruct (classify (p ++ [x])).
-    + rewrite IH. destruct (u_run [] a) as [[p1 s1]|]; [|reflexivity].
-      destruct (u_run p1 b) as [[p2 s2]|]; reflexivity.
-    + apply IH.
-    + reflexivity.
+  - destruct (u_run p b) as [p2 s2]. reflexivity.
+  - destruct (u_step p x) as [p1 s1]. rewrite IH.
+    destruct (u_run p1 a) as [p1' s1']. destruct (u_run p1' b) as [p2 s2]. rewrite app_assoc. reflexivity.
 Qed.
 
-Definition utf8_from (p : bytes) (bs : bytes) : option str :=
-  match u_run p bs with Some (p', s) => Some (s ++ u_flush p') | None => None end.
+Definition utf8_from (p : bytes) (bs : bytes) : str := let '(p', s) := u_run p bs in s ++ u_flush p'.
 
 Lemma text_chunker_concat : forall t, concat (text_chunker t) = t.
 Proof. destruct t; [reflexivity | cbn; rewrite app_nil_r; reflexivity]. Qed.
 
-Lemma text_run_concat : forall cs p,
-  option_map (@concat N) (text_run p cs) = utf8_from p (concat cs).
+Lemma text_run_concat : forall cs p, concat (text_run p cs) = utf8_from p (concat cs).
 Proof.
   induction cs as [|c cs IH]; intros p; cbn [text_run concat].
-  - unfold utf8_from. cbn [u_run option_map]. rewrite text_chunker_concat. reflexivity.
-  - unfold utf8_from. rewrite u_run_app. destruct (u_run p c) as [[p1 t]|]; [|reflexivity].
-    specialize (IH p1). unfold utf8_from in IH.
-    destruct (text_run p1 cs) as [ts|]; cbn [option_map] in *.
-    + destruct (u_run p1 (concat cs)) as [[p2 s2]|]; [|discriminate].
-      inversion IH as [IH']. rewrite concat_app, text_chunker_concat, IH', app_assoc. reflexivity.
-    + destruct (u_run p1 (concat cs)) as [[p2 s2]|]; [discriminate | reflexivity].
+  - unfold utf8_from. cbn [u_run app]. apply text_chunker_concat.
+  - unfold utf8_from. rewrite u_run_app. destruct (u_run p c) as [p1 t].
+    rewrite concat_app, text_chunker_concat, IH. unfold utf8_from.
+    destruct (u_run p1 (concat cs)) as [p2 s2]. rewrite app_assoc. reflexivity.
 Qed.
 
 Theorem iter_bytes_concat : forall cs, concat (iter_bytes cs) = concat cs.
@@ -252,20 +237,19 @@ Proof.
   destruct c; cbn [nonemptyb concat app]; [exact IH | rewrite IH; reflexivity].
 Qed.
 
-(* Theorem 2: the text chunks produced for any chunking concatenate to the decoding of the whole stream
-   (in particular, well-formedness is a property of the stream, not of the chunking) *)
-Theorem utf8_chunk_independent : forall cs,
-  option_map (@concat N) (aiter_text cs) = utf8_decode (concat cs).
-Proof.
-  intros cs. unfold aiter_text. rewrite text_run_concat, iter_bytes_concat. reflexivity.
-Qed.
+(* Theorem 2: the text chunks produced for ANY byte stream (ill-formed UTF-8 included: the placement of U+FFFD) and
+   any chunking concatenate to the decoding of the whole stream *)
+Theorem utf8_chunk_independent : forall cs, concat (aiter_text cs) = utf8_decode (concat cs).
+Proof. intros cs. unfold aiter_text. rewrite text_run_concat, iter_bytes_concat. reflexivity. Qed.
 
 (* ====================== D. the iterators depend on the stream only ====================== *)
-Theorem aiter_lines_stream : forall cs,
-  aiter_lines cs = option_map splitlines (utf8_decode (concat cs)).
+Theorem aiter_lines_stream : forall cs, aiter_lines cs = splitlines (utf8_decode (concat cs)).
+Proof. intros cs. unfold aiter_lines. rewrite ld_chunk_independent, utf8_chunk_independent. reflexivity. Qed.
+
+Lemma read_all_concat : forall cs, concat (read_all cs) = concat cs.
 Proof.
-  intros cs. unfold aiter_lines. rewrite <- utf8_chunk_independent.
-  destruct (aiter_text cs) as [ts|]; cbn [option_map]; [rewrite ld_chunk_independent|]; reflexivity.
+  intros cs. unfold read_all. rewrite iter_bytes_concat.
+  destruct (concat cs); [reflexivity | cbn [concat]; rewrite app_nil_r; reflexivity].
 Qed.
 
 Section Indep.
@@ -290,7 +274,23 @@ Section Indep.
   (* in terms of the unsplit stream: what comes out for any chunking is what comes out for [whole] *)
   Theorem sse_whole : forall cs, iter_sse py_int cs = iter_sse py_int [concat cs].
   Proof. intros cs. apply sse_indep. cbn [concat]. rewrite app_nil_r. reflexivity. Qed.
+
+  (* ---- the generated client: the body is read completely first, so the helper sees one chunk ---- *)
+  Theorem e2e_events_stream : forall cs,
+    e2e_events py_int J json_loads cs = loads_all J json_loads (iter_sse_events_text py_int cs).
+  Proof. intros cs. unfold e2e_events. rewrite (sse_text_indep _ _ (read_all_concat cs)). reflexivity. Qed.
+
+  Theorem e2e_events_indep : forall cs1 cs2, concat cs1 = concat cs2 ->
+    e2e_events py_int J json_loads cs1 = e2e_events py_int J json_loads cs2.
+  Proof. intros cs1 cs2 H. rewrite !e2e_events_stream, (sse_text_indep _ _ H). reflexivity. Qed.
 End Indep.
+
+(* on that path even the ITEMS of the byte iterator are independent of the chunking: the whole body, once *)
+Theorem e2e_bytes_whole : forall cs, e2e_bytes cs = match concat cs with [] => [] | b => [b] end.
+Proof.
+  intros cs. unfold e2e_bytes, read_all. rewrite iter_bytes_concat.
+  destruct (concat cs); reflexivity.
+Qed.
 
 (* ====================== E. what a sender writes comes back ====================== *)
 Definition clean (l : str) : Prop := forall c, In c l -> is_nl c = false.
@@ -467,10 +467,61 @@ Section Round.
         rewrite <- ?app_assoc; reflexivity.
   Qed.
 
-  Lemma parse_items : forall b, (forall it, In it b -> item_ok it) ->
-    parse_event py_int (map item_line b) = expected b.
+  Lemma fold_upd_some : forall {A} (f : item -> option A) b acc,
+    acc <> None -> fold_left (upd f) b acc <> None.
   Proof.
-    intros b H. unfold parse_event. rewrite fold_pe_items by exact H. rewrite fold_acc_items. reflexivity.
+    induction b as [|x b IH]; intros acc H; [exact H|]. cbn [fold_left]. apply IH.
+    unfold upd. destruct (f x); [discriminate | exact H].
+  Qed.
+
+  Lemma fold_upd_in : forall {A} (f : item -> option A) b acc it,
+    In it b -> f it <> None -> fold_left (upd f) b acc <> None.
+  Proof.
+    induction b as [|x b IH]; intros acc it Hin Hf; [destruct Hin|]. cbn [fold_left]. destruct Hin as [E|Hin].
+    - subst x. apply fold_upd_some. unfold upd. destruct (f it); [discriminate | contradiction].
+    - apply (IH _ it Hin Hf).
+  Qed.
+
+  Lemma fold_upd_none : forall {A} (f : item -> option A) b,
+    (forall it, In it b -> f it = None) -> fold_left (upd f) b None = None.
+  Proof.
+    induction b as [|x b IH]; intros H; [reflexivity|]. cbn [fold_left]. unfold upd at 2.
+    rewrite (H x (or_introl eq_refl)). apply IH. intros it Hit. apply H. right. exact Hit.
+  Qed.
+
+  Lemma has_field_false : forall b, has_field b = false -> forall it, In it b -> is_field it = false.
+  Proof.
+    intros b H it Hit. destruct (is_field it) eqn:E; [|reflexivity].
+    assert (has_field b = true) by (apply existsb_exists; exists it; split; assumption). congruence.
+  Qed.
+
+  (* _parse_sse_event on the lines of a block: an event iff the block has a field line *)
+  Lemma parse_items : forall b, (forall it, In it b -> item_ok it) ->
+    parse_event py_int (map item_line b) = if has_field b then Some (expected b) else None.
+  Proof.
+    intros b H. unfold parse_event. rewrite fold_pe_items by exact H. rewrite fold_acc_items. cbn [app].
+    change (expected b) with {| e_data := join [c_join] (flat_map f_dt b); e_event := fold_left (upd f_ev) b None;
+                                e_id := fold_left (upd f_id') b None; e_retry := fold_left (upd f_rt) b None |}.
+    destruct (has_field b) eqn:HF.
+    - apply existsb_exists in HF. destruct HF as [it [Hit Hf]].
+      assert (Hany : flat_map f_dt b <> [] \/ fold_left (upd f_ev) b None <> None \/
+                     fold_left (upd f_id') b None <> None \/ fold_left (upd f_rt) b None <> None).
+      { destruct it as [s|s|s|s|s]; [discriminate| | | |].
+        - left. intro E. assert (Hin : In s (flat_map f_dt b)) by (apply in_flat_map; exists (IData s); split; [exact Hit | left; reflexivity]).
+          rewrite E in Hin. destruct Hin.
+        - right. left. apply (fold_upd_in f_ev b None (IEvent s) Hit). discriminate.
+        - right. right. left. apply (fold_upd_in f_id' b None (IId s) Hit). discriminate.
+        - right. right. right. apply (fold_upd_in f_rt b None (IRetry s) Hit). discriminate. }
+      destruct (flat_map f_dt b), (fold_left (upd f_ev) b None), (fold_left (upd f_id') b None),
+        (fold_left (upd f_rt) b None); try reflexivity.
+      exfalso. destruct Hany as [E|[E|[E|E]]]; apply E; reflexivity.
+    - pose proof (has_field_false b HF) as HC.
+      assert (Hd : flat_map f_dt b = []).
+      { clear H HF. induction b as [|x b IH]; [reflexivity|]. cbn [flat_map].
+        rewrite IH by (intros it Hit; apply HC; right; exact Hit).
+        specialize (HC x (or_introl eq_refl)). destruct x; [reflexivity | discriminate ..]. }
+      rewrite Hd, !fold_upd_none; [reflexivity | | |];
+        intros it Hit; specialize (HC it Hit); destruct it; try reflexivity; discriminate.
   Qed.
 
   (* ---- the dispatch loop over the lines of whole blocks ---- *)
@@ -486,24 +537,24 @@ Section Round.
       rewrite IH. rewrite <- app_assoc. reflexivity.
   Qed.
 
-  Definition pe (b : block) : event := parse_event py_int (map item_line b).
+  Definition pe (b : block) : option event := parse_event py_int (map item_line b).
 
   Lemma sse_block : forall b rest, b <> [] ->
-    sse_loop py_int [] (block_lines b ++ rest) = pe b :: sse_loop py_int [] rest.
+    sse_loop py_int [] (block_lines b ++ rest) = olist (pe b) ++ sse_loop py_int [] rest.
   Proof.
     intros b rest Hne. unfold block_lines. rewrite <- app_assoc, sse_loop_items. cbn [app sse_loop].
     destruct b as [|it b]; [contradiction|]. cbn [map]. reflexivity.
   Qed.
 
   Lemma sse_stream : forall bs rest, (forall b, In b bs -> b <> []) ->
-    sse_loop py_int [] (stream_lines bs ++ rest) = map pe bs ++ sse_loop py_int [] rest.
+    sse_loop py_int [] (stream_lines bs ++ rest) = flat_map (fun b => olist (pe b)) bs ++ sse_loop py_int [] rest.
   Proof.
     induction bs as [|b bs IH]; intros rest H; [reflexivity|].
-    unfold stream_lines in *. cbn [map concat]. rewrite <- app_assoc, sse_block by (apply H; left; reflexivity).
+    unfold stream_lines in *. cbn [map concat flat_map]. rewrite <- !app_assoc, sse_block by (apply H; left; reflexivity).
     rewrite IH by (intros x Hx; apply H; right; exact Hx). reflexivity.
   Qed.
 
-  Lemma sse_last_block : forall b, b <> [] -> sse_loop py_int [] (map item_line b) = [pe b].
+  Lemma sse_last_block : forall b, b <> [] -> sse_loop py_int [] (map item_line b) = olist (pe b).
   Proof.
     intros b Hne. rewrite <- (app_nil_r (map item_line b)), sse_loop_items. cbn [app sse_loop].
     destruct b; [contradiction | reflexivity].
@@ -589,12 +640,22 @@ Section Round.
     unfold block_lines. rewrite app_assoc. reflexivity.
   Qed.
 
-  Lemma pe_expected : forall bs, (forall b, In b bs -> good_block b = true) -> map pe bs = map expected bs.
+  Lemma block_items_ok : forall b, good_block b = true -> forall it, In it b -> item_ok it.
   Proof.
-    intros bs H. apply map_ext_in. intros b Hb. unfold pe. apply parse_items.
-    intros it Hit. apply good_item_ok. specialize (H b Hb). unfold good_block in H.
+    intros b H it Hit. apply good_item_ok. unfold good_block in H.
     apply andb_true_iff in H. destruct H as [_ H]. rewrite forallb_forall in H. apply H. exact Hit.
   Qed.
+
+  Lemma pe_expected : forall bs, (forall b, In b bs -> good_block b = true) ->
+    flat_map (fun b => olist (pe b)) bs = spec_events bs.
+  Proof.
+    induction bs as [|b bs IH]; intros H; [reflexivity|]. cbn [flat_map]. unfold spec_events in *. cbn [filter].
+    unfold pe at 1. rewrite parse_items by (apply block_items_ok; apply H; left; reflexivity).
+    rewrite IH by (intros x Hx; apply H; right; exact Hx). destruct (has_field b); reflexivity.
+  Qed.
+
+  Lemma spec_events_app : forall a b, spec_events (a ++ b) = spec_events a ++ spec_events b.
+  Proof. intros a b. unfold spec_events. rewrite filter_app, map_app. reflexivity. Qed.
 
   Lemma good_nonempty : forall bs, (forall b, In b bs -> good_block b = true) -> forall b, In b bs -> b <> [].
   Proof. intros bs H b Hb E. specialize (H b Hb). subst b. discriminate. Qed.
@@ -603,7 +664,7 @@ Section Round.
      stream ends (after the blank line, after the last line's terminator, or right after the last line),
      the events come back: data lines joined by "\n", comments ignored, last event/id/retry win. *)
   Theorem sse_roundtrip_text : forall t k bs, guard bs = true ->
-    sse_of_lines py_int (splitlines (encode t k bs)) = map expected bs.
+    sse_of_lines py_int (splitlines (encode t k bs)) = spec_events bs.
   Proof.
     intros t k bs G. pose proof (guard_blocks bs G) as HB. unfold sse_of_lines.
     destruct k; cbn [encode].
@@ -618,10 +679,8 @@ Section Round.
         by (apply all_clean_app; [apply stream_lines_clean; exact HB0 | apply block_lines_clean; exact Hb0]).
       rewrite sse_stream by (apply good_nonempty; exact HB0).
       rewrite sse_last_block by (intro E; subst b0; discriminate).
-      rewrite map_app. cbn [map]. rewrite (pe_expected bs0 HB0). f_equal. f_equal.
-      unfold pe. apply parse_items. intros it Hit. apply good_item_ok.
-      unfold good_block in Hb0. apply andb_true_iff in Hb0. destruct Hb0 as [_ Hb0].
-      rewrite forallb_forall in Hb0. apply Hb0. exact Hit.
+      rewrite spec_events_app, (pe_expected bs0 HB0). f_equal.
+      rewrite <- (pe_expected [b0]) by (intros x [E|[]]; subst x; exact Hb0). cbn [flat_map]. rewrite app_nil_r. reflexivity.
     - destruct bs as [|b0 bs0] using rev_ind; [reflexivity|]. clear IHbs0.
       rewrite stream_lines_snoc, removelast_last.
       assert (HB0 : forall b, In b bs0 -> good_block b = true) by (intros x Hx; apply HB; apply in_or_app; left; exact Hx).
@@ -630,10 +689,8 @@ Section Round.
       rewrite splitlines_join.
       + rewrite sse_stream by (apply good_nonempty; exact HB0).
         rewrite sse_last_block by exact Hne.
-        rewrite map_app. cbn [map]. rewrite (pe_expected bs0 HB0). f_equal. f_equal.
-        unfold pe. apply parse_items. intros it Hit. apply good_item_ok.
-        unfold good_block in Hb0. apply andb_true_iff in Hb0. destruct Hb0 as [_ Hb0].
-        rewrite forallb_forall in Hb0. apply Hb0. exact Hit.
+        rewrite spec_events_app, (pe_expected bs0 HB0). f_equal.
+        rewrite <- (pe_expected [b0]) by (intros x [E|[]]; subst x; exact Hb0). cbn [flat_map]. rewrite app_nil_r. reflexivity.
       + apply all_clean_app; [apply stream_lines_clean; exact HB0 | apply block_lines_clean; exact Hb0].
       + destruct b0 as [|it b0 _] using rev_ind; [contradiction|].
         rewrite map_app. cbn [map]. rewrite app_assoc, last_last.
@@ -699,53 +756,90 @@ Proof.
   destruct ((128 <=? b3) && (b3 <=? 191)) eqn:E; [reflexivity | lia].
 Qed.
 
-Lemma u_run_enc1 : forall c r, valid_cp c = true ->
-  u_run [] (utf8_enc1 c ++ r) = match u_run [] r with Some (p, s) => Some (p, c :: s) | None => None end.
+Lemma u_strict_enc1 : forall c r, valid_cp c = true ->
+  u_strict [] (utf8_enc1 c ++ r) = match u_strict [] r with Some (p, s) => Some (p, c :: s) | None => None end.
 Proof.
   intros c r V. unfold valid_cp in V. unfold utf8_enc1.
-  destruct (c <? 128) eqn:E1; [|destruct (c <? 2048) eqn:E2; [|destruct (c <? 65536) eqn:E3]]; cbn [app u_run].
+  destruct (c <? 128) eqn:E1; [|destruct (c <? 2048) eqn:E2; [|destruct (c <? 65536) eqn:E3]]; cbn [app u_strict].
   - rewrite classify1_char by lia. reflexivity.
-  - rewrite classify1_more by lia. cbn [app u_run].
+  - rewrite classify1_more by lia. cbn [app u_strict].
     rewrite classify2_char by (try apply second_ok_true; lia).
     replace ((192 + c / 64 - 192) * 64 + (128 + c mod 64 - 128)) with c by lia. reflexivity.
-  - rewrite classify1_more by lia. cbn [app u_run].
-    rewrite classify2_more by (try apply second_ok_true; lia). cbn [app u_run].
+  - rewrite classify1_more by lia. cbn [app u_strict].
+    rewrite classify2_more by (try apply second_ok_true; lia). cbn [app u_strict].
     rewrite classify3_char by lia.
     replace ((224 + c / 4096 - 224) * 4096 + (128 + (c / 64) mod 64 - 128) * 64 + (128 + c mod 64 - 128)) with c by lia.
     reflexivity.
-  - rewrite classify1_more by lia. cbn [app u_run].
-    rewrite classify2_more by (try apply second_ok_true; lia). cbn [app u_run].
-    rewrite classify3_more by lia. cbn [app u_run].
+  - rewrite classify1_more by lia. cbn [app u_strict].
+    rewrite classify2_more by (try apply second_ok_true; lia). cbn [app u_strict].
+    rewrite classify3_more by lia. cbn [app u_strict].
     rewrite classify4_char by lia.
     replace ((240 + c / 262144 - 240) * 262144 + (128 + (c / 4096) mod 64 - 128) * 4096
              + (128 + (c / 64) mod 64 - 128) * 64 + (128 + c mod 64 - 128)) with c by lia.
     reflexivity.
 Qed.
 
-Lemma u_run_encode : forall s, forallb valid_cp s = true -> u_run [] (utf8_encode s) = Some ([], s).
+Lemma u_strict_encode : forall s, forallb valid_cp s = true -> u_strict [] (utf8_encode s) = Some ([], s).
 Proof.
   induction s as [|c s IH]; intros H; [reflexivity|]. cbn [forallb] in H. apply andb_true_iff in H.
-  destruct H as [Hc Hs]. unfold utf8_encode in *. cbn [flat_map]. rewrite u_run_enc1 by exact Hc.
+  destruct H as [Hc Hs]. unfold utf8_encode in *. cbn [flat_map]. rewrite u_strict_enc1 by exact Hc.
   rewrite IH by exact Hs. reflexivity.
 Qed.
 
-Theorem utf8_decode_encode : forall s, forallb valid_cp s = true -> utf8_decode (utf8_encode s) = Some s.
-Proof. intros s H. unfold utf8_decode. rewrite u_run_encode by exact H. cbn [u_flush]. rewrite app_nil_r. reflexivity. Qed.
+(* where strict decoding succeeds, the replace decoder does exactly the same *)
+Lemma more_not_sur : forall q, classify q = UMore -> sur_prefix q = false.
+Proof.
+  intros q H. destruct q as [|b0 [|b1 [|b2 q]]]; try reflexivity.
+  unfold sur_prefix. unfold classify, second_ok in H. destruct (b0 =? 237) eqn:E; [|reflexivity].
+  assert (E224 : (b0 =? 224) = false) by lia. rewrite E224 in H.
+  unfold in_rng in *. destruct ((128 <=? b1) && (b1 <=? 159)) eqn:E2; [|discriminate].
+  cbn [andb]. lia.
+Qed.
+
+Lemma strict_replace : forall bs p r, sur_prefix p = false -> u_strict p bs = Some r -> u_run p bs = r.
+Proof.
+  induction bs as [|b bs IH]; intros p r Hp H; cbn [u_strict u_run] in *.
+  - inversion H. reflexivity.
+  - assert (Hstep : forall q, classify (p ++ [b]) = q ->
+              u_step p b = match q with
+                           | UChar c => ([], [c])
+                           | UMore => (p ++ [b], [])
+                           | UBad => u_step p b
+                           end).
+    { intros q Hq. unfold u_step. destruct p as [|b0 p0].
+      - unfold u_start. cbn [app] in Hq. rewrite Hq. destruct q; reflexivity.
+      - rewrite Hp, Hq. destruct q; reflexivity. }
+    destruct (classify (p ++ [b])) as [c| |] eqn:E; [| |discriminate].
+    + rewrite (Hstep _ eq_refl).
+      destruct (u_strict [] bs) as [[p' s]|] eqn:E2; [|discriminate]. inversion H; subst r.
+      rewrite (IH [] (p', s) eq_refl E2). reflexivity.
+    + rewrite (Hstep _ eq_refl). rewrite (IH (p ++ [b]) r (more_not_sur _ E) H). destruct r. reflexivity.
+Qed.
+
+Lemma u_run_encode : forall s, forallb valid_cp s = true -> u_run [] (utf8_encode s) = ([], s).
+Proof. intros s H. apply strict_replace; [reflexivity | apply u_strict_encode; exact H]. Qed.
+
+Theorem utf8_decode_encode : forall s, forallb valid_cp s = true -> utf8_decode (utf8_encode s) = s.
+Proof. intros s H. unfold utf8_decode. rewrite u_run_encode by exact H. cbn [u_flush]. apply app_nil_r. Qed.
+
+(* on well-formed streams (strict decoding succeeds) no U+FFFD is invented: replace = strict *)
+Theorem utf8_wf_strict : forall bs p s, u_strict [] bs = Some (p, s) -> utf8_decode bs = s ++ u_flush p.
+Proof. intros bs p s H. unfold utf8_decode. rewrite (strict_replace bs [] (p, s) eq_refl H). reflexivity. Qed.
 
 (* byte level, any chunking: if the stream is the UTF-8 encoding of what the sender wrote, the events come back *)
 Theorem sse_roundtrip : forall (py_int : str -> option Z),
   (forall ds, ds <> [] -> forallb is_digit ds = true -> py_int ds = Some (digits_val ds)) ->
   forall t k bs cs, guard bs = true ->
-  utf8_decode (concat cs) = Some (encode t k bs) ->
-  iter_sse py_int cs = Some (map expected bs) /\
-  iter_sse_events_text py_int cs = Some (filter nonemptyb (map e_data (map expected bs))).
+  utf8_decode (concat cs) = encode t k bs ->
+  iter_sse py_int cs = spec_events bs /\
+  iter_sse_events_text py_int cs = filter nonemptyb (map e_data (spec_events bs)).
 Proof.
   intros py_int Hint t k bs cs G H.
-  assert (E : iter_sse py_int cs = Some (map expected bs)).
-  { unfold iter_sse. rewrite aiter_lines_stream, H. cbn [option_map].
-    rewrite (sse_roundtrip_text py_int Hint t k bs G). reflexivity. }
-  split; [exact E|]. unfold iter_sse_events_text. rewrite E. f_equal. unfold events_text. clear E.
-  induction (map expected bs) as [|e es IH]; [reflexivity|]. cbn [filter map].
+  assert (E : iter_sse py_int cs = spec_events bs).
+  { unfold iter_sse. rewrite aiter_lines_stream, H.
+    apply (sse_roundtrip_text py_int Hint t k bs G). }
+  split; [exact E|]. unfold iter_sse_events_text. rewrite E. unfold events_text. clear E.
+  induction (spec_events bs) as [|e es IH]; [reflexivity|]. cbn [filter map].
   destruct (nonemptyb (e_data e)); cbn [map]; rewrite IH; reflexivity.
 Qed.
 
@@ -755,8 +849,8 @@ Theorem sse_roundtrip_bytes : forall (py_int : str -> option Z),
   (forall ds, ds <> [] -> forallb is_digit ds = true -> py_int ds = Some (digits_val ds)) ->
   forall t k bs cs, guard bs = true -> forallb valid_cp (encode t k bs) = true ->
   concat cs = utf8_encode (encode t k bs) ->
-  iter_sse py_int cs = Some (map expected bs) /\
-  iter_sse_events_text py_int cs = Some (filter nonemptyb (map e_data (map expected bs))).
+  iter_sse py_int cs = spec_events bs /\
+  iter_sse_events_text py_int cs = filter nonemptyb (map e_data (spec_events bs)).
 Proof.
   intros py_int Hint t k bs cs G V H. apply (sse_roundtrip py_int Hint t k bs cs G).
   rewrite H. apply utf8_decode_encode. exact V.
@@ -766,16 +860,64 @@ Qed.
 Theorem ndjson_roundtrip : forall (J : Type) (jl : str -> option J) (recs : list (str * J)) t cs,
   all_clean (map fst recs) ->
   (forall l j, In (l, j) recs -> strip l <> [] /\ jl (strip l) = Some j) ->
-  utf8_decode (concat cs) = Some (enc_lines t (map fst recs)) ->
-  iter_ndjson J jl cs = Some (map snd recs, false).
+  utf8_decode (concat cs) = enc_lines t (map fst recs) ->
+  iter_ndjson J jl cs = (map snd recs, false).
 Proof.
-  intros J jl recs t cs Hc Hj H. unfold iter_ndjson. rewrite aiter_lines_stream, H. cbn [option_map].
-  rewrite splitlines_enc_lines by exact Hc. f_equal. clear H Hc.
+  intros J jl recs t cs Hc Hj H. unfold iter_ndjson. rewrite aiter_lines_stream, H.
+  rewrite splitlines_enc_lines by exact Hc. clear H Hc.
   induction recs as [|[l j] recs IH]; [reflexivity|]. cbn [map fst snd ndjson_of_lines].
   destruct (Hj l j (or_introl eq_refl)) as [Hne Hl].
   destruct (strip l) as [|c s] eqn:E; [contradiction|]. rewrite Hl.
   rewrite IH by (intros l' j' Hin; apply Hj; right; exact Hin). reflexivity.
 Qed.
+
+(* ---------- the int() hypothesis of the round-trip theorems is met by the ASCII model of int() ---------- *)
+Lemma int_digits_all : forall ds acc prev, forallb is_digit ds = true -> (ds <> [] \/ prev = true) ->
+  int_digits acc prev ds = Some (fold_left (fun a c => (10 * a + Z.of_N (c - 48))%Z) ds acc).
+Proof.
+  induction ds as [|c ds IH]; intros acc prev H Hne; cbn [int_digits fold_left].
+  - destruct Hne as [Hne|Hp]; [contradiction | rewrite Hp; reflexivity].
+  - cbn [forallb] in H. apply andb_true_iff in H. destruct H as [Hc Hds]. rewrite Hc.
+    apply IH; [exact Hds | right; reflexivity].
+Qed.
+
+Lemma digit_not_cspace : forall c, is_digit c = true -> is_cspace c = false.
+Proof. intros c H. unfold is_digit in H. unfold is_cspace. lia. Qed.
+
+Lemma lstrip_c_digit : forall c s, is_digit c = true -> lstrip_c (c :: s) = c :: s.
+Proof. intros c s H. cbn [lstrip_c]. rewrite (digit_not_cspace c H). reflexivity. Qed.
+
+Lemma strip_c_digits : forall ds, forallb is_digit ds = true -> strip_c ds = ds.
+Proof.
+  intros ds H. unfold strip_c. destruct ds as [|c ds]; [reflexivity|].
+  cbn [forallb] in H. apply andb_true_iff in H. destruct H as [Hc Hds].
+  rewrite (lstrip_c_digit c ds Hc).
+  assert (Hrev : forallb is_digit (rev (c :: ds)) = true).
+  { apply forallb_forall. intros x Hx. apply in_rev in Hx. destruct Hx as [E|Hx]; [subst x; exact Hc|].
+    rewrite forallb_forall in Hds. apply Hds. exact Hx. }
+  destruct (rev (c :: ds)) as [|c' r'] eqn:E.
+  - apply (f_equal (@rev N)) in E. rewrite rev_involutive in E. discriminate.
+  - cbn [forallb] in Hrev. apply andb_true_iff in Hrev. destruct Hrev as [Hc' _].
+    rewrite (lstrip_c_digit c' r' Hc'). rewrite <- E. apply rev_involutive.
+Qed.
+
+Theorem py_int_ascii_digits : forall ds, ds <> [] -> forallb is_digit ds = true ->
+  py_int_ascii ds = Some (digits_val ds).
+Proof.
+  intros ds Hne H. unfold py_int_ascii. rewrite (strip_c_digits ds H).
+  destruct ds as [|c ds]; [contradiction|].
+  assert (Hc : is_digit c = true) by (cbn [forallb] in H; apply andb_true_iff in H; apply H).
+  assert (E43 : (c =? 43) = false) by (unfold is_digit in Hc; lia).
+  assert (E45 : (c =? 45) = false) by (unfold is_digit in Hc; lia).
+  rewrite E43, E45. apply int_digits_all; [exact H | left; discriminate].
+Qed.
+
+Example py_int_ascii_examples :
+  py_int_ascii [49; 95; 48] = Some 10%Z /\ py_int_ascii [43; 53; 32] = Some 5%Z /\ py_int_ascii [32; 45; 51; 9] = Some (-3)%Z /\
+  py_int_ascii [49; 95; 95; 48] = None /\ py_int_ascii [95; 49] = None /\ py_int_ascii [49; 95] = None /\
+  py_int_ascii [43; 32; 53] = None /\ py_int_ascii [45; 45; 53] = None /\ py_int_ascii [43] = None /\ py_int_ascii [] = None /\
+  py_int_ascii [53; 31] = None /\ py_int_ascii [48; 120; 49; 48] = None /\ py_int_ascii [48; 48; 49; 50] = Some 12%Z.
+Proof. repeat split; reflexivity. Qed.
 
 (* ---------- non-vacuity ---------- *)
 Definition bs_ok : list block :=
@@ -788,13 +930,27 @@ Proof. split; reflexivity. Qed.
 (* "data: e-acute" CRLF CRLF cut inside the two-byte character and between CR and LF *)
 Definition cs_ok : list bytes := [[100; 97; 116; 97; 58; 32; 195]; [169; 13]; []; [10; 13]; [10]].
 Example roundtrip_nonvacuous :
-  guard [[IData [233]]] = true /\ utf8_decode (concat cs_ok) = Some (encode CRLF TFull [[IData [233]]]).
+  guard [[IData [233]]] = true /\ utf8_decode (concat cs_ok) = encode CRLF TFull [[IData [233]]].
 Proof. split; reflexivity. Qed.
 
 Example chunking_matters_in_the_model :   (* the layers below really are chunk-sensitive: state is carried *)
-  aiter_text cs_ok = Some [[100; 97; 116; 97; 58; 32]; [233; 13]; [10; 13]; [10]] /\
+  aiter_text cs_ok = [[100; 97; 116; 97; 58; 32]; [233; 13]; [10; 13]; [10]] /\
   fst (ld_fold ([], false) [[100; 97; 116; 97; 58; 32]; [233; 13]; [10; 13]; [10]]) = ([], false).
 Proof. split; reflexivity. Qed.
+
+(* ill-formed UTF-8: E2 28 A1 ("\xe2(\xa1") decodes to U+FFFD "(" U+FFFD however it is cut; a UTF-8-encoded surrogate
+   ED A0 80 gives three U+FFFD, and CPython's "truncated surrogate" pending state is reproduced *)
+Example ill_formed_examples :
+  utf8_decode [226; 40; 161] = [65533; 40; 65533] /\
+  aiter_text [[226]; [40; 161]] = [[65533; 40; 65533]] /\
+  aiter_text [[226; 40]; [161]] = [[65533; 40]; [65533]] /\
+  utf8_decode [237; 160; 128] = [65533; 65533; 65533] /\
+  aiter_text [[237; 160]; [128]] = [[65533; 65533; 65533]] /\
+  aiter_text [[237]; [160; 128]] = [[65533; 65533; 65533]] /\
+  aiter_text [[237; 160; 128]] = [[65533; 65533; 65533]] /\
+  aiter_text [[97; 237; 160]] = [[97]; [65533; 65533]] /\
+  utf8_wf [226; 40; 161] = false /\ utf8_wf [240; 159; 152] = true.
+Proof. repeat split; vm_compute; reflexivity. Qed.
 
 (* ---------- refutations of the functional half on the faithful model ---------- *)
 Definition bs_F18a : list block := [[IData [97; 8232; 98]]].      (* data: a<U+2028>b *)
@@ -802,8 +958,17 @@ Definition bs_F18b : list block := [[IData [32; 120]]].           (* data:  x  (
 
 Lemma refuted_F18a :
   guard_dom bs_F18a = true /\ guard_F18a bs_F18a = false /\
-  forall py_int, sse_of_lines py_int (splitlines (encode LF TFull bs_F18a)) <> map expected bs_F18a.
+  forall py_int, sse_of_lines py_int (splitlines (encode LF TFull bs_F18a)) <> spec_events bs_F18a.
 Proof. repeat split; try (vm_compute; reflexivity). intros py_int H. vm_compute in H. discriminate H. Qed.
+
+(* F18c is fixed: ": keep-alive" blank "data: x" blank delivers exactly one event; a comment-only stream delivers none *)
+Definition bs_F18c : list block := [[IComment [32; 107; 97]]; [IData [120]]].
+Lemma regression_F18c : forall py_int,
+  guard bs_F18c = true /\
+  sse_of_lines py_int (splitlines (encode LF TFull bs_F18c)) = spec_events bs_F18c /\
+  length (spec_events bs_F18c) = 1%nat /\
+  sse_of_lines py_int (splitlines (encode CRLF TLine [[IComment []]])) = [].
+Proof. intros py_int. repeat split; vm_compute; reflexivity. Qed.
 
 (* F18b is fixed: the former witnesses (payload " x" sent as `data:  x`; TAB / NBSP / ideographic-space first) meet the
    guard and come back unchanged, for every int() *)
